@@ -11,3 +11,16 @@ def capfirst(text):
         return text
 
     return text[0].upper() + text[1:]
+
+
+def pystr(text, oneline=False):
+    """Make MIB text safe for pasting into a Python string literal.
+
+    MIB texts have no escape character, so a backslash stands for itself.
+    """
+    text = text.replace('\\', '\\\\')
+
+    if oneline:
+        text = text.replace('\r', '\\r').replace('\n', '\\n')
+
+    return text
